@@ -167,7 +167,7 @@ def dimstr(rng, toks, fancy_ws=True):
 
 DT_CASES = [("Float", "float32"), ("Float", "float32"), ("Float", "float32"), ("Shaped", "int32"), ("Int", "int32"),
             ("Float", "int32"), ("Bool", "float32"), ("Num", "float64"), ("Shaped", "bool")]
-ARR_KINDS = ["np"] * 10 + ["any", "duck", "notarray", "noattrs"]
+ARR_KINDS = ["np"] * 10 + ["any", "duck", "ducktorch", "notarray", "noattrs"]
 
 
 def gen_session(rng, nsteps=None, raising=False, p_perturb=.3, arrs=ARR_KINDS, dts=DT_CASES):
@@ -188,7 +188,7 @@ def value_coq(step, dtype_name=None):
     arr = step.get("arr", "np")
     inst = arr in ("np", "jax")
     attrs = arr != "noattrs"
-    if arr in ("any", "duck"):
+    if arr in ("any", "duck", "ducktorch"):
         inst = False
     return "(mkvalue %s %s %s %s)" % (coqbool(inst), coqbool(attrs), coqstr(dtype_name or step.get("dtype", "float32")),
                                       coqlist(step["shape"], coqz))
@@ -196,7 +196,7 @@ def value_coq(step, dtype_name=None):
 
 def step_coq(step, dtypes):
     """dtypes: list of str or None (from the implementation's category class)"""
-    return "(mkstep %s %s %s %s)" % (coqstr(step["dim"]), coqbool(step.get("arr", "np") in ("any", "duck", "noattrs")),
+    return "(mkstep %s %s %s %s)" % (coqstr(step["dim"]), coqbool(step.get("arr", "np") in ("any", "duck", "ducktorch", "noattrs")),
                                      coqopt(dtypes, lambda l: coqlist(l, coqstr)), value_coq(step))
 
 
